@@ -242,18 +242,20 @@ void
 qb_ipcs_destroy(struct qb_ipcs_service *s)
 {
 	struct qb_ipcs_connection *c = NULL;
-	struct qb_list_head *pos;
-	struct qb_list_head *n;
+	struct qb_ipcs_connection *next = NULL;
 
 	if (s == NULL) {
 		return;
 	}
-	qb_list_for_each_safe(pos, n, &s->connections) {
-		c = qb_list_entry(pos, struct qb_ipcs_connection, list);
-		if (c == NULL) {
-			continue;
-		}
+	/*
+	 * The callbacks run by qb_ipcs_disconnect() may release or
+	 * disconnect any other connection, so walk the list holding a
+	 * reference on the current and on the next connection.
+	 */
+	for (c = qb_ipcs_connection_first_get(s); c != NULL; c = next) {
+		next = qb_ipcs_connection_next_get(s, c);
 		qb_ipcs_disconnect(c);
+		qb_ipcs_connection_unref(c);
 	}
 	(void)qb_ipcs_us_withdraw(s);
 
